@@ -377,32 +377,80 @@ W_ENV = dict(name='w_env_getenv', kind='ok', flavor='witness-env', main='main.na
     'fn main() -> int {\n    (println L)\n    (println H)\n    (println U)\n    (println (twice))\n    return 0\n}\n\n' + _ENVMAIN})
 W_CWD = dict(name='w_env_getcwd', kind='ok', flavor='witness-env', main='main.nano', files={'main.nano':
     'let C: int = (str_length (getcwd))\n\nfn main() -> int {\n    (println C)\n    (println (+ C 1))\n    return 0\n}\n\n' + _ENVMAIN})
-ENV_WITNESSES = ('w_env_getenv', 'w_env_getcwd')
+# constants DERIVED by pure arithmetic from an environment-dependent one (no call in their own initialiser): must not be folded either
+W_DERIVED = dict(name='w_env_derived', kind='ok', flavor='witness-env', main='main.nano', files={'main.nano':
+    'let PATH_MAX_BYTES: int = 4096\nlet CWD_LEN: int = (str_length (getcwd))\nlet PREFIX_LEN: int = (str_length (getenv "FOO"))\n'
+    'let HALF: int = (/ PATH_MAX_BYTES 2)\nlet NAME_ROOM: int = (- PATH_MAX_BYTES CWD_LEN)\nlet PREFIX_ROOM: int = (- (- PATH_MAX_BYTES PREFIX_LEN) 1)\n'
+    'let TWICE: int = (* NAME_ROOM 2)\nlet DEEP: bool = (> CWD_LEN 40)\nlet SHALLOW: bool = (not DEEP)\n\n'
+    'fn fits(name: string) -> bool {\n    return (< (str_length name) NAME_ROOM)\n}\n\nshadow fits {\n    assert (fits "report.txt")\n}\n\n'
+    'fn under_prefix(name: string) -> bool {\n    return (< (str_length name) PREFIX_ROOM)\n}\n\nshadow under_prefix {\n    assert (under_prefix "report.txt")\n}\n\n'
+    'fn main() -> int {\n    (println HALF)\n    (println NAME_ROOM)\n    (println TWICE)\n    (println SHALLOW)\n    (println (fits "a.out"))\n    (println (under_prefix "a.out"))\n    return 0\n}\n\n' + _ENVMAIN})
+ENV_WITNESSES = ('w_env_getenv', 'w_env_getcwd', 'w_env_derived')
 ENV_MENU = [('int', '(str_length (getenv "FOO"))'), ('int', '(str_length (getenv "HOME"))'), ('int', '(str_length (getenv "TZ"))'), ('int', '(str_length (getcwd))'),
             ('bool', '(== (getenv "NANO_UNRELATED") "1")'), ('bool', '(== (getenv "LANG") "C")'), ('float', '(cast_float (str_length (getenv "FOO")))'),
             ('int', '(+ (str_length (getenv "TERM")) (str_length (getcwd)))'), ('bool', '(> (str_length (getcwd)) 40)')]
 
 
 def gen_envconst(rng, name):
-    """program whose top-level immutable constants are initialised by getenv / getcwd expressions and used in functions, conditions and main"""
-    ks = rng.sample(ENV_MENU, rng.randrange(2, 5))
-    lines, uses = [], []
-    for i, (ty, ex) in enumerate(ks):
-        lines.append('let K%d: %s = %s' % (i, ty, ex))
-        if ty == 'int':
-            uses += ['(println K%d)' % i, '(println (* K%d %d))' % (i, rng.randrange(2, 9))]
-        elif ty == 'bool':
-            uses += ['(println K%d)' % i, 'if (== K%d true) {\n        (println "yes%d")\n    } else {\n        (println "no%d")\n    }' % (i, i, i)]
-        else:
-            uses += ['(println K%d)' % i]
-    ints = [i for i, (ty, _) in enumerate(ks) if ty == 'int']
+    """program whose top-level immutable constants are initialised by getenv / getcwd expressions AND chains of constants derived from them
+    (depth 1-3) by pure arithmetic, comparison, negation, `not`, `and`, `cond`, mixed with literal constants; a derived constant is also used as
+    the size of a global array, only inside a helper function, and in a shadow assertion; every constant is printed by main."""
+    consts = []                # (name, type, expr, depth)
+
+    def add(ty, ex, depth):
+        n = 'K%d' % len(consts); consts.append((n, ty, ex, depth)); return n
+    for ty, ex in rng.sample(ENV_MENU, rng.randrange(1, 3)):
+        add(ty, ex, 0)
+    if not any(c[1] == 'int' for c in consts):
+        add('int', rng.choice(['(str_length (getcwd))', '(str_length (getenv "FOO"))', '(str_length (getenv "HOME"))']), 0)
+    lit_i = add('int', str(rng.choice([4096, 100, 7, 65536])), 0)
+    lit_b = add('bool', rng.choice(['true', 'false']), 0)
+    ints = lambda: [c for c in consts if c[1] == 'int']
+    bools = lambda: [c for c in consts if c[1] == 'bool']
+    envdep = set(c[0] for c in consts if 'get' in c[2])
+    for depth in range(1, rng.randrange(2, 5)):
+        for _ in range(rng.randrange(1, 4)):
+            # at least one operand whose value comes (directly or not) from the environment
+            src = rng.choice([c for c in ints() if c[0] in envdep])
+            other = rng.choice(ints())
+            form = rng.choice(['sub', 'mul', 'neg', 'mixlit', 'addneg', 'cmp', 'eq', 'not', 'and', 'cond', 'unary'])
+            if form == 'sub': n = add('int', '(- %s %s)' % (other[0], src[0]), depth)
+            elif form == 'mul': n = add('int', '(* %s %d)' % (src[0], rng.randrange(2, 9)), depth)
+            elif form == 'neg': n = add('int', '(- 0 %s)' % src[0], depth)
+            elif form == 'unary': n = add('int', '(- %s)' % src[0], depth)
+            elif form == 'mixlit': n = add('int', '(+ (- %s %s) %d)' % (lit_i, src[0], rng.randrange(1, 50)), depth)
+            elif form == 'addneg': n = add('int', '(+ (- 0 %s) %s)' % (src[0], other[0]), depth)
+            elif form == 'cmp': n = add('bool', '(> %s %d)' % (src[0], rng.choice([3, 10, 40, 100])), depth)
+            elif form == 'eq': n = add('bool', '(== %s %s)' % (src[0], other[0]), depth)
+            elif form == 'cond': n = add('int', '(cond ((> %s %d) %d) (else %d))' % (src[0], rng.choice([5, 20, 40]), rng.randrange(1, 9), rng.randrange(10, 19)), depth)
+            else:
+                bsrc = [c for c in bools() if c[0] in envdep]
+                if not bsrc:
+                    n = add('bool', '(< %s %d)' % (src[0], rng.choice([8, 33])), depth)
+                elif form == 'not': n = add('bool', '(not %s)' % rng.choice(bsrc)[0], depth)
+                else: n = add('bool', '(and %s (> %s 2))' % (rng.choice(bsrc)[0], src[0]), depth)
+            envdep.add(n)
+    derived_i = [c for c in consts if c[3] > 0 and c[1] == 'int']
+    lines = ['let %s: %s = %s' % (n, ty, ex) for n, ty, ex, _ in consts]
+    uses = []
+    for n, ty, ex, d in consts:
+        uses.append('(println %s)' % n)
+        if ty == 'int' and rng.random() < 0.4: uses.append('(println (* %s %d))' % (n, rng.randrange(2, 9)))
+        if ty == 'bool' and rng.random() < 0.5:
+            uses.append('if (== %s true) {\n        (println "yes_%s")\n    } else {\n        (println "no_%s")\n    }' % (n, n, n))
     fn = ''
-    if ints:
-        fn = 'fn acc() -> int {\n    return (+ K%d 1)\n}\n\nshadow acc {\n    assert (>= (acc) 1)\n}\n\n' % ints[0]
-        uses.append('(println (acc))')
+    if derived_i:
+        d0 = rng.choice(derived_i)[0]; d1 = rng.choice(derived_i)[0]
+        # used only inside a helper, and in a shadow assertion
+        fn += 'fn helper() -> int {\n    return (+ %s 1)\n}\n\nshadow helper {\n    assert (== (helper) (+ %s 1))\n    assert (== %s %s)\n}\n\n' % (d0, d0, d1, d1)
+        uses.append('(println (helper))')
+        # as the size of a global array (the size is small and non-negative whatever the environment)
+        lines.append('let ARR: array<int> = (array_new (+ 2 (%% (* %s %s) 5)) 0)' % (d1, d1))
+        uses.append('(println (array_length ARR))')
     rng.shuffle(uses)
     src = '\n'.join(lines) + '\n\n' + fn + 'fn main() -> int {\n' + '\n'.join('    ' + u for u in uses) + '\n    return 0\n}\n\n' + _ENVMAIN
-    return dict(name=name, files={'main.nano': src}, main='main.nano', kind='ok', flavor='envconst')
+    return dict(name=name, files={'main.nano': src}, main='main.nano', kind='ok', flavor='envconst',
+                shape=dict(constants=len(consts), max_depth=max(c[3] for c in consts), derived=sum(1 for c in consts if c[3] > 0)))
 
 
 def mask_literals(data):
@@ -411,7 +459,7 @@ def mask_literals(data):
     return re.sub(r'\b\d+LL\b|\btrue\b|\bfalse\b|(?<![\w.])-?\d+(?:\.\d+)?(?:e[+-]?\d+)?(?![\w.])', '#', s)
 
 
-WITNESSES = [W_MIN, W_STRINGS, W_MOD, W_MOD2, W_EXT, W_ENV, W_CWD]
+WITNESSES = [W_MIN, W_STRINGS, W_MOD, W_MOD2, W_EXT, W_ENV, W_CWD, W_DERIVED]
 PATH_WITNESS = 'w_mod'        # the input-path-spelling finding is keyed on this program
 
 _ILL_TAIL = '\nfn main() -> int {\n    (println (f 1 2))\n    return 0\n}\n\nshadow main {\n    assert (== (main) 0)\n}\n'
@@ -787,7 +835,7 @@ def sweep(ck, b, _bins_override=None):
             fl = order[i % len(order)]
             name = 'r%d_%02d_%s' % (ck.seed, i, fl)
             cands.append(gen_multi(rng, name, int(fl[3])) if fl.startswith('mod') else gen_single(rng, name, fl))
-        for i in range(8 if ck.thorough else 2):
+        for i in range(12 if ck.thorough else 4):
             cands.append(gen_envconst(rng, 'r%d_e%02d_envconst' % (ck.seed, i)))
         ills = [dict(p) for p in ILL] + [gen_ill(rng, 'ill_r%d_%02d' % (ck.seed, i)) for i in range(6 if ck.thorough else 1)]
 
@@ -890,7 +938,12 @@ def sweep(ck, b, _bins_override=None):
                     pa['differing'] += 1
                     per_kind[kind]['differing'] += 1
                     if p['name'] not in ENV_WITNESSES:
-                        continue        # reported once per fixed witness (stable key); generated programs are counted in ck.extra
+                        # the env-inlining finding is fixed (b9b0697): no difference of a getenv/getcwd program is tolerated any more
+                        ck.fail('c19:genc:%s:%s:env-inlined' % (p['name'], axis0),
+                                'generated C of %s (top-level constants initialised from / derived from getenv, getcwd) differs on configuration axis %s only by literals: a compile-time value was pasted at a use site' % (p['name'], axis0),
+                                dict(program=p['files'], main=p['main'], program_name=p['name'], config_a=public_cfg(c if pairing else base_cfg), config_b=public_cfg(c),
+                                     kind=kind, verdict='env_inlined', pair=pairing, axis=axis0, **det))
+                        continue
                     key = 'c19:genc:%s:env-inlined' % p['name']
                     what = ('generated C of %s depends on the compiler\'s %s: an immutable top-level `let` initialised by a non-literal expression (getenv / getcwd ...) is evaluated '
                             'at compile time and its VALUE is emitted as a literal at every use (e.g. nl_println_int(3LL)); the texts are equal once literals are masked; the .nvm '
@@ -967,6 +1020,7 @@ def sweep(ck, b, _bins_override=None):
                     tool_runs=2 * (len(jobs) + len(progs) + info['dropped_programs'] + sum(1 for r in results if r.get('second'))), per_kind=per_kind, per_axis=per_axis,
                     path_embedding_programs={k: sorted(v) for k, v in path_embed.items()},
                     env_inlined_programs={k: sorted(v) for k, v in env_inlined.items()},
+                    envconst_shapes={p['name']: p.get('shape') for p in progs if p.get('flavor') == 'envconst'},
                     diag_header_padding_follows_path_length=sorted(header_pad),
                     nvm_bytes=dict(min=min(sizes_n), max=max(sizes_n), total=sum(sizes_n)) if sizes_n else None,
                     genc_bytes=dict(min=min(sizes_c), max=max(sizes_c), total=sum(sizes_c)) if sizes_c else None,
